@@ -198,7 +198,9 @@ def one_set(ctx, idx, probes):
                     import copy
                     ts = copy.deepcopy([pristine_by_key[genrun.type_key(t)] for t in ts])
                     ctx.count("runs_on_pristine_models")
-                files, ns = genrun.gen_inprocess(ts, root_dir, out, lang, order_seed=order_seed, post_processors=pps(), templates_dir=tdir, **kw)
+                shared = kw.pop("shared_pps", None)
+                files, ns = genrun.gen_inprocess(ts, root_dir, out, lang, order_seed=order_seed, post_processors=shared if shared is not None else pps(),
+                                                 templates_dir=tdir, **kw)
                 stem = ns.get_language_context().get_target_language().namespace_output_stem
                 shutil.rmtree(out, ignore_errors=True)
                 return per_type_files(files, stem)
@@ -219,6 +221,16 @@ def one_set(ctx, idx, probes):
                         variants.append(("closed", run(list(reversed(sub)))))
                     except Exception as e:
                         ctx.refute(None, "variant closed failed: %r" % e, dict(set=idx, root=root, lang=lang))
+                for olang in ("c", "cpp", "py"):
+                    if olang != lang:
+                        try:
+                            shared = []
+                            o = os.path.join(d, "out_other")
+                            genrun.gen_inprocess(types, root_dir, o, olang, post_processors=shared)
+                            shutil.rmtree(o, ignore_errors=True)
+                            variants.append(("shared_pp_list", run(types, shared_pps=shared)))
+                        except Exception as e:
+                            ctx.refute(None, "variant shared_pp_list failed: %r" % e, dict(set=idx, root=root, lang=lang))
                 for flang in ("c", "py"):
                     try:
                         failed_generation_first(ctx, d, types, root_dir, flang)
@@ -234,11 +246,18 @@ def one_set(ctx, idx, probes):
                     except Exception as e:
                         ctx.refute(None, "variant same_generator failed: %r" % e, dict(set=idx, root=root, lang=lang, pre_calls=pre))
             for v in range(nvar):
-                kind = R.choice(["perm", "subset", "closed", "again", "after_other", "after_config", "config_vs_fresh", "same_generator", "after_failed"])
+                kind = R.choice(["perm", "subset", "closed", "again", "after_other", "after_config", "config_vs_fresh", "same_generator", "after_failed", "shared_pp_list"])
                 if kind == "config_vs_fresh" and (lang == "html" or tdir):
                     kind = "perm"
                 try:
-                    if kind == "after_failed":
+                    if kind == "shared_pp_list":
+                        # library use: one post-processor list object handed to a generator of another language first
+                        shared = pps() or []
+                        o = os.path.join(d, "out_other")
+                        genrun.gen_inprocess(types, root_dir, o, R.choice([l for l in ("c", "cpp", "py") if l != lang]), post_processors=shared)
+                        shutil.rmtree(o, ignore_errors=True)
+                        variants.append((kind, run(types, shared_pps=shared)))
+                    elif kind == "after_failed":
                         failed_generation_first(ctx, d, types, root_dir, R.choice(["c", "py", lang]))
                         variants.append((kind, run(types)))
                     elif kind == "same_generator":
